@@ -150,6 +150,9 @@ class StepOperationExecutor(OperationExecutor[T]):
             checkpointed_result.is_started()
             and self.config.step_semantics is StepSemantics.AT_LEAST_ONCE_PER_RETRY
         ):
+            # No START is sent for a record that already exists, so nothing has checked yet
+            # whether the enclosing context completed in the meantime
+            self.state.raise_if_orphaned(self.operation_identifier.operation_id)
             return CheckResult.create_is_ready_to_execute(checkpointed_result)
 
         # Create START checkpoint if not exists. With AtMostOncePerRetry every new attempt (including a
@@ -189,6 +192,10 @@ class StepOperationExecutor(OperationExecutor[T]):
 
                 # If we reach here, status must be STARTED - ready to execute
                 return CheckResult.create_is_ready_to_execute(refreshed_result)
+        else:
+            # The record exists (e.g. READY after a retry) and no START is sent: stop an
+            # orphaned branch before the step function runs
+            self.state.raise_if_orphaned(self.operation_identifier.operation_id)
 
         # Ready to execute
         return CheckResult.create_is_ready_to_execute(checkpointed_result)
